@@ -44,8 +44,10 @@ def parseMask? (s : String) : Option UMask :=
   if s = "none" then some .none
   else if s.startsWith "m:" then
     let fs := (s.drop 2).toString.splitOn "+"
-    if fs.all (fun f => f = "body" || f = "media_type") then
-      some (.fields (fs.contains "body") (fs.contains "media_type"))
+    if fs.all (fun f => f = "body" || f = "media_type" || f = "audience" || f = "audience.name") then
+      if fs.contains "audience" && fs.contains "audience.name" then none
+      else some (.fields (fs.contains "body") (fs.contains "media_type")
+        (if fs.contains "audience" then .whole else if fs.contains "audience.name" then .name else .none))
     else none
   else none
 
@@ -55,26 +57,35 @@ def resolve (s : Store) (prev : List (String × String)) (id vref : String) : St
   else if vref = "old" then (match prev.find? (·.1 = id) with | some kv => kv.2 | none => "bogus")
   else vref
 
-def parseOp? (s : Store) (prev : List (String × String)) (tok : String) : Option Op :=
+/-- `$g` addresses the most recently generated id -/
+def decId (lastGen : String) (s : String) : String :=
+  let s := decStr s
+  if s = "$g" then lastGen else s
+
+def parseOp? (s : Store) (prev : List (String × String)) (lastGen : String) (tok : String) : Option Op :=
+  let fixId (p : Pub) : Pub := { p with id := if p.id = "$g" then lastGen else p.id }
   match tok.splitOn "|" with
-  | ["create", id, body, mt, aud, receipt, reason] => (mkPub? id body mt aud receipt reason).map .create
+  | ["create", id, body, mt, aud, receipt, reason] => (mkPub? id body mt aud receipt reason).map (fun p => .create (fixId p))
+  | ["creategen", g, body, mt, aud, receipt, reason, _] =>
+    (mkPub? "~" body mt aud receipt reason).map (fun p => .createGen p (decStr g))
   | ["update", id, body, mt, aud, receipt, reason, mask, vref] => do
-    let p ← mkPub? id body mt aud receipt reason
+    let p ← (mkPub? id body mt aud receipt reason).map fixId
     let mask ← parseMask? mask
     pure (.update p mask (resolve s prev p.id (decStr vref)))
   | ["delete", id, vref, am] => do
     let am ← parseBool? am
-    pure (.delete (decStr id) (resolve s prev (decStr id) (decStr vref)) am)
+    pure (.delete (decId lastGen id) (resolve s prev (decId lastGen id) (decStr vref)) am)
   | ["ack", id, vref, receipt, reason, aa] => do
     let receipt ← parseInt? receipt
     let aa ← parseBool? aa
-    pure (.ack (decStr id) (resolve s prev (decStr id) (decStr vref)) receipt (decStr reason) aa)
+    pure (.ack (decId lastGen id) (resolve s prev (decId lastGen id) (decStr vref)) receipt (decStr reason) aa)
   | _ => none
 
 structure DrvState where
   store : Store := []
   prev : List (String × String) := []
   now : Int := 1000
+  lastGen : String := "nogen"
   outs : List String := []
   bad : Bool := false
 
@@ -83,7 +94,7 @@ def handle? (toks : List String) : Option String :=
   | "pub.seq" :: ops =>
     let st := ops.foldl (fun (st : DrvState) tok =>
       let now := st.now + 1
-      match parseOp? st.store st.prev tok with
+      match parseOp? st.store st.prev st.lastGen tok with
       | none => { st with bad := true }
       | some op =>
         let (s', code) := step Hc now st.store op
@@ -93,7 +104,10 @@ def handle? (toks : List String) : Option String :=
               | some old => (p.id, old.version) :: st.prev.filter (·.1 ≠ p.id)
               | none => st.prev)
           | _, _ => st.prev
-        { store := s', prev := prev', now := now, outs := (showCode code ++ "#" ++ showStore s') :: st.outs, bad := st.bad }) {}
+        let lastGen' := match op, code with
+          | .createGen _ g, .ok => g
+          | _, _ => st.lastGen
+        { store := s', prev := prev', now := now, lastGen := lastGen', outs := (showCode code ++ "#" ++ showStore s') :: st.outs, bad := st.bad }) {}
     if st.bad then none else some (";".intercalate st.outs.reverse)
   | _ => none
 
